@@ -451,20 +451,56 @@ theorem migrate_quotas (s : State) : ∀ (L : List Pod) (st : State), (∀ p ∈
             | exact h2
             | exact setPod_req _ _ _ (fun _ => rfl) h3
 
+theorem unghost_none (s : State) (h : ∀ p ∈ s.pods, p.ghost = false) : unghost s = s := by
+  unfold unghost
+  have : s.pods.filter (·.ghost) = [] := by
+    rw [List.filter_eq_nil_iff]
+    intro p hp; rw [h p hp]; simp
+  rw [this]; rfl
+
+/-- a tick that finds no pod held twice and moves only pods not assigned yet keeps the invariant. -/
 theorem migrate_inv (cp : Bool) (s : State) (h : ∀ p ∈ s.pods, limbo s p = true → p.assigned = false)
-    (hI : Inv cp s) : Inv cp (migrate s) := by
+    (hg : ∀ p ∈ s.pods, p.ghost = false) (hI : Inv cp s) : Inv cp (migrate s) := by
   have hL : ∀ p ∈ s.pods.filter (limbo s), p.assigned = false := by
     intro p hp
     have := List.mem_filter.mp hp
     exact h p this.1 this.2
   rcases migrate_quotas s (s.pods.filter (limbo s)) s hL rfl rfl hI.reqNonneg with ⟨h1, h2, h3⟩
   unfold migrate
+  simp only [unghost_none s hg]
   refine ⟨?_, ?_, ?_, h3, ?_, ?_⟩
   · rw [h1]; exact hI.nodup
   · rw [h1]; exact hI.rootMax
   · rw [h1]; exact hI.nonneg
   · rw [h1, h2]; exact hI.usedLeMax
   · rw [h1, h2]; exact hI.npLeMin
+
+theorem podRedef_inv (cp : Bool) (s : State) (id : Nat) (np : Bool) (req : RL) (hreq : ∀ d, 0 ≤ val req d)
+    (hI : Inv cp s) : Inv cp (podRedef s id np req) := by
+  unfold podRedef
+  cases hp : findP s.pods id with
+  | none => exact hI
+  | some p =>
+    simp only []
+    split
+    · exact hI
+    · apply inv_pods cp s _ _ hI
+      intro x hx d
+      unfold setPod at hx
+      rcases List.mem_map.mp hx with ⟨y, hy, rfl⟩
+      by_cases hi : y.id = id
+      · simp only [hi, if_true]; exact hreq d
+      · simp only [hi, if_false]; exact hI.reqNonneg y hy d
+
+theorem unreserveObj_inv (cp : Bool) (s : State) (id uid : Nat) (hI : Inv cp s) : Inv cp (unreserveObj s id uid) := by
+  unfold unreserveObj
+  cases findP s.pods id with
+  | none => exact hI
+  | some p =>
+    simp only []
+    split
+    · exact unreserve_inv cp s id hI
+    · exact hI
 
 theorem podDef_inv (cp : Bool) (s : State) (id quota : Nat) (np : Bool) (req : RL) (hreq : ∀ d, 0 ≤ val req d)
     (hI : Inv cp s) : Inv cp (podDef s id quota np req) := by
@@ -610,7 +646,9 @@ def EvOK (cp : Bool) (s : State) : Ev → Prop
       ∀ q, findQ s.quotas n = some q → NotLowered q.max mx ∧ NotLowered q.min mn ∧ MetaOK cp s q parent ip l mx mn
   | .ext (.podDef _ _ _ req) => ∀ d, 0 ≤ val req d
   | .ext (.reserve _) => False
-  | .ext .migrate => ∀ p ∈ s.pods, limbo s p = true → p.assigned = false
+  | .ext .migrate => (∀ p ∈ s.pods, limbo s p = true → p.assigned = false) ∧ ∀ p ∈ s.pods, p.ghost = false
+  | .ext (.podRedef _ _ req) => ∀ d, 0 ≤ val req d
+  | .ext (.podBind _) => False   -- the informer books usage without an admission: outside the closed loop
   | .ext _ => True
 
 def Valid (cp : Bool) : State → List Ev → Prop
@@ -649,7 +687,10 @@ theorem runEv_inv (cp : Bool) (s : State) (e : Ev) (hI : Inv cp s) (hok : EvOK c
     | unreserve id => exact unreserve_inv cp s id hI
     | podDelete id => exact podDelete_inv cp s id hI
     | setDefault n => exact ⟨hI.nodup, hI.rootMax, hI.nonneg, hI.reqNonneg, hI.usedLeMax, hI.npLeMin⟩
-    | migrate => exact migrate_inv cp s hok hI
+    | migrate => exact migrate_inv cp s hok.1 hok.2 hI
+    | podRedef id np req => exact podRedef_inv cp s id np req hok hI
+    | unreserveObj id uid => exact unreserveObj_inv cp s id uid hI
+    | podBind id => exact (hok : False).elim
 
 /-
 DESIGN §4 C03 T3 for histories in which a scheduling cycle is atomic (`Ev.cycle` = PreFilter + Reserve iff admitted).
@@ -938,6 +979,7 @@ def dropsPending (s : State) : Op → Bool
     | some p => !p.inCache && (homeOf s p != p.quota)   -- the pod is filed under another group than before
     | none => false
   | .migrate => true
+  | .podRedef _ _ _ => true   -- a new pod object: whatever was admitted was the old one
   | _ => false
 
 def runI (is : IState) : IEv → IState
@@ -968,7 +1010,8 @@ theorem findQ_mem_map {qs : List Quota} (f : Quota → Quota) (hname : ∀ q, (f
   rw [findQ_map f hname, h]; rfl
 
 /-- one informer event that does not drop the open admission keeps "still fits". -/
-theorem ext_fits (cp : Bool) (s : State) (op : Op) (hI : Inv cp s) (hok : EvOK cp s (.ext op))
+theorem ext_fits_core (cp : Bool) (s : State) (op : Op) (hI : Inv cp s) (hok : EvOK cp s (.ext op))
+    (hno : ∀ i u, op ≠ .unreserveObj i u)
     (hnd : dropsPending s op = false) (id : Nat) (p : Pod) (q : Quota)
     (hp : findP s.pods id = some p) (hq : findQ s.quotas p.quota = some q) (hF : Fits cp s p q) :
     ∃ p' q', findP (step s op).1.pods id = some p' ∧ findQ (step s op).1.quotas p'.quota = some q' ∧
@@ -1072,9 +1115,9 @@ theorem ext_fits (cp : Bool) (s : State) (op : Op) (hI : Inv cp s) (hok : EvOK c
             have hid : p.id = id := by simpa using List.find?_some hp'
             have e : findP s.pods i = findP s.pods id := by rw [← h, hid]
             rw [e, hp] at hpi; cases hpi; rfl
-          refine ⟨if p.id = i then { p with quota := homeOf s pi, inCache := true, assigned := false } else p, q, ?_, ?_, ?_⟩
+          refine ⟨if p.id = i then { p with quota := homeOf s pi, inCache := true, assigned := false, cuid := p.uid } else p, q, ?_, ?_, ?_⟩
           · show findP (setPod s.pods i _) id = _
-            rw [findP_setPod s.pods i id (fun x => { x with quota := homeOf s pi, inCache := true, assigned := false })
+            rw [findP_setPod s.pods i id (fun x => { x with quota := homeOf s pi, inCache := true, assigned := false, cuid := x.uid })
               (fun _ => rfl), hp]
             rfl
           · show findQ s.quotas _ = some q
@@ -1154,6 +1197,35 @@ theorem ext_fits (cp : Bool) (s : State) (op : Op) (hI : Inv cp s) (hok : EvOK c
               h0 h1 h2 h3
   | setDefault n => exact ⟨p, q, hp, hq, hF⟩
   | migrate => simp [dropsPending] at hnd
+  | podRedef i np req => simp [dropsPending] at hnd
+  | podBind i => exact (hok : False).elim
+  | unreserveObj i uid => exact absurd rfl (hno i uid)
+
+/-- one informer event that does not drop the open admission keeps "still fits". -/
+theorem ext_fits (cp : Bool) (s : State) (op : Op) (hI : Inv cp s) (hok : EvOK cp s (.ext op))
+    (hnd : dropsPending s op = false) (id : Nat) (p : Pod) (q : Quota)
+    (hp : findP s.pods id = some p) (hq : findQ s.quotas p.quota = some q) (hF : Fits cp s p q) :
+    ∃ p' q', findP (step s op).1.pods id = some p' ∧ findQ (step s op).1.quotas p'.quota = some q' ∧
+      Fits cp (step s op).1 p' q' := by
+  by_cases hno : ∀ i u, op ≠ .unreserveObj i u
+  · exact ext_fits_core cp s op hI hok hno hnd id p q hp hq hF
+  · have : ∃ i u, op = .unreserveObj i u := by
+      apply Classical.byContradiction
+      intro h
+      apply hno
+      intro i u e
+      exact h ⟨i, u, e⟩
+    rcases this with ⟨i, u, rfl⟩
+    rw [show (step s (Op.unreserveObj i u)).1 = unreserveObj s i u from rfl]
+    unfold unreserveObj
+    cases hpi : findP s.pods i with
+    | none => exact ⟨p, q, hp, hq, hF⟩
+    | some pi =>
+      simp only []
+      by_cases hu : pi.cuid = u
+      · simp only [hu, if_true]
+        exact ext_fits_core cp s (.unreserve i) hI trivial (fun _ _ h => by cases h) rfl id p q hp hq hF
+      · simp only [hu, if_false]; exact ⟨p, q, hp, hq, hF⟩
 
 theorem runI_inv (cp : Bool) (is : IState) (e : IEv) (hI : IInv cp is) (hok : IEvOK cp is e) : IInv cp (runI is e) := by
   obtain ⟨hInv, hPend⟩ := hI
